@@ -35,6 +35,7 @@ pub fn gen_case(r: &mut Prng, tag: &str, allow_panicky_bare: bool) -> Case {
     let nst = 1 + r.usize(3);
     let (stmts, regs) = {
         let mut g = Gen::new(r, &mut case, knobs, 0);
+        g.assign_names = NAMES.iter().map(|s| s.to_string()).collect();
         let mut stmts = vec![];
         for _ in 0..nst {
             g.nodes = 0;
@@ -125,7 +126,7 @@ impl Prop for C07 {
         }));
         for k in 0..n {
             let mut c = (*base).clone();
-            c.fault = Some(Fault { task: 0, k, kind: FaultKind::Err });
+            c.fault = Some(Fault::once(0, k, FaultKind::Err));
             let c = Arc::new(c);
             let out = rt.sim(&c, &spec);
             if out.log.iter().any(|e| matches!(e, Ev::Fault { .. })) {
